@@ -201,7 +201,7 @@ def lw11(prog, rr):
 
 
 # --------------------------------------------------------------------------------------- RN7
-@rule("RN7", ["C03", "C06"], "a field solved or drawn in a call is locked again (set_used_rand(False)) before the call ends", engine="SAI", floor=2)
+@rule("RN7", ["C03", "C06", "C16"], "a field solved or drawn in a call is locked again (set_used_rand(False)) before the call ends", engine="SAI", floor=2)
 def rn7(prog, rr):
     f = prog.method("Randomizer", "randomize")
     # (a) unconstrained draw loop
@@ -239,6 +239,24 @@ def rn7(prog, rr):
         rr.inst("read-back loop over %s locks: %d" % (norm(lp.iter), len(locks)))
         if not locks:
             rr.finding(f, lp, "Randomizer.randomize", "RN7: fields read back from the solver are not locked afterwards (set_used_rand(False))")
+    # (c) the SolveFailure branch: fields it disposes are locked as well
+    fail_if = None
+    for n in walk_local(f.node):
+        if isinstance(n, ast.If) and "Sat()" in norm(n.test) and any(isinstance(x, ast.Raise) for b in n.body + n.orelse for x in walk_local(b)):
+            fail_if = n
+    rr.require(fail_if is not None, "hard not-SAT branch not found in Randomizer.randomize")
+    fb = fail_if.body if any(isinstance(x, ast.Raise) for b in fail_if.body for x in walk_local(b)) else fail_if.orelse
+    disp = [n for b in fb for n in walk_local(b) if isinstance(n, ast.Call) and call_name(n) == "dispose"]
+    for d in disp:
+        v = recv_text(d)
+        lps = [lp for b in fb for lp in walk_local(b) if isinstance(lp, ast.For) and norm(lp.target) == v and any(x is d for x in walk_local(lp))]
+        locked = any(isinstance(n, ast.Call) and call_name(n) == "set_used_rand" and recv_text(n) == v and n.args and isinstance(n.args[0], ast.Constant)
+                     and n.args[0].value is False for lp in lps for n in walk_local(lp))
+        rr.inst("failure branch: fields disposed in `for %s in ...` are locked: %s" % (v, locked))
+        if not locked:
+            rr.finding(f, d, "Randomizer.randomize", "RN7: on SolveFailure the fields of the rand sets are disposed but stay marked used-as-random: a later call "
+                       "on another object whose inline constraint only references such a field treats it as a solve target and overwrites it",
+                       text="failure path not locked")
 
 
 # --------------------------------------------------------------------------------------- SH5
